@@ -9,7 +9,9 @@ Streams
                       number of completed computations  vs  `runHistC` on the `depsProg` family
   optkeys    (model)  all 32 option sets x 4 user classes x 4 call shapes: the key tuples the
                       rewritten class stores (or the exception it raises) vs `siteKeys (optimize ..)`
-  pairs      (oracle) paired cached / uncached mappers over histories of (expression, extra args)
+  pairs      (oracle) paired cached / uncached mappers over histories of (expression, extra args);
+                      includes CachedStringifyMapper vs StringifyMapper (texts, exceptions, at most
+                      one handler run per (expression, enclosing precedence) on one instance)
   scalars    (oracle) histories mixing 4 / 4.0 / True (top level and reached through `rec`)
   optimizer  (oracle) optimized user classes (all 32 option sets) vs their non-memoizing counterparts
 
@@ -610,6 +612,9 @@ def make_pair(pl):
     if kind == "flops":
         from pymbolic.mapper.flop_counter import FlopCounter
         return FlopCounter, (), {}, pc["flops-plain"], None
+    if kind == "stringify":
+        from pymbolic.mapper.stringifier import CachedStringifyMapper, StringifyMapper
+        return CachedStringifyMapper, (), {}, StringifyMapper, None
     if kind == "cse-mixin":
         return C.CseTagger, (), {}, C.PlainTagger, {"map_common_subexpression_uncached"}
     if kind == "cse-mixin-cached":
@@ -628,7 +633,9 @@ def counted(cls, once=None):
 
 
 PAIR_KINDS = ["identity", "combine", "collector", "walk", "evaluation", "dependency",
-              "substitution", "nodecount", "flops", "cse-mixin", "cse-mixin-cached"]
+              "substitution", "nodecount", "flops", "cse-mixin", "cse-mixin-cached", "stringify"]
+# enclosing precedences passed to the stringifiers (PREC_NONE … PREC_CALL and one above)
+STRINGIFY_PRECS = [0, 3, 6, 11, 12, 13, 14, 15, 16]
 WITH_ARGS = {"identity": (True, True), "combine": (True, True), "collector": (True, True),
              "walk": (True, True), "dependency": (True, False), "cse-mixin": (True, False),
              "cse-mixin-cached": (True, False)}
@@ -663,6 +670,15 @@ class PairStream(Stream):
         else:
             g = ExprGen(rng, lists=False, cse=0.2, floats=0.02)
             calls = gen_history(rng, g, with_args=wa, with_kwargs=wk)
+        if kind == "stringify":
+            # the memoizing stringifier vs the plain one: repeated and shared subtrees, the same
+            # subtree under different enclosing precedences (explicit `prec` argument: it is part of
+            # the key), and every third history 4 / 4.0 / True at top level and below
+            if i % 3 == 1:
+                calls = scalar_history(rng)
+            for c in calls:
+                if rng.random() < 0.5:
+                    c[1] = [rng.choice(STRINGIFY_PRECS)]
         pl["calls"] = calls
         if kind == "dependency":
             pl["flags"] = rng.choice(FLAGSETS)
@@ -979,8 +995,9 @@ def probe():
     ref = outc(lambda: IdentityMapper()(p.Sum((x, [1]))))
     res.append(("unhashable-list", got[0] != ref[0], f"cached {got!r}, plain {ref!r}"))
 
-    # 6. CachedStringifyMapper.__call__ hands over to CachedMapper.__call__ without the instance
-    #    (read by T-gen: row of c05CallOverrides, theorem cached_stringify_call_cex)
+    # 6. (fixed) CachedStringifyMapper.__call__ handed over to CachedMapper.__call__ without the
+    #    instance (T-gen: row of c05CallOverrides, theorems cache_wraps_handlers_current,
+    #    cached_stringify_call_current; the old row: cached_stringify_old_override_cex)
     from pymbolic.mapper.stringifier import CachedStringifyMapper, StringifyMapper
     got = outc(lambda: CachedStringifyMapper()(e))
     ref = outc(lambda: StringifyMapper()(e))
@@ -1048,11 +1065,11 @@ PROP = Prop(
                "get_cache_key; for all 32 option sets the rewritten key scheme is equivalent to "
                "the original one on the calls the option set allows, with negation witnesses for "
                "three defects. Tied to the code by key-equality, hit/miss-trace and key-shape "
-               "correspondence and by paired cached/uncached runs of eleven mapper pairs; and by "
+               "correspondence and by paired cached/uncached runs of twelve mapper pairs; and by "
                "tables regenerated from the source on every run (T-gen): the key tuple, the "
                "statement-by-statement body of CachedMapper.__call__ and of the CSE mix-in (proved to "
                "BE the model's callC / key equalities), the MRO of every stock caching class (proved "
-               "to put the cache around every handler, one class excepted and witnessed), the "
+               "to put the cache around every handler, top-level calls and rec alike), the "
                "optimizer's rewriting loop, its three transformer classes run on every dispatch "
                "expression of the model's syntax, and the rewritten source of 4 x 32 optimized "
                "classes (proved equal to the model's optimize).",
